@@ -42,14 +42,124 @@ package api
 //@ stable maptype map[string]*node_info.NodeInfo
 
 // ---- added by helper "sess": plugin callbacks dispatched by the framework.Session wrappers ----------------------
-// Abstract verdict of a registered callback (function value f) on its arguments + ASSUMED frame of plugin code
-// (framework.pluginFrame: no statement log / Operation cell is touched, no cache emission, no reverse closure runs,
-// Statement.ssn links stay). The verdict symbols name the callback's answer at the state of the call.
+// Each `type:` contract below is an ASSUMPTION about plugin code (function values registered with the session):
+//  * an abstract verdict: the callback's answer is named by a declared function of (function value, arguments); it is
+//    the answer at the state of the call - two calls with the same arguments are only comparable while the objects the
+//    plugin looks at are unchanged (the wrappers under contract call each registered function once per dispatch);
+//  * the plugin frame framework.pluginFrame(): a callback touches no statement (log, session link), calls none of the
+//    cache emission points and runs no reverse closure. Everything else may change (fit errors, plugin-private state,
+//    node / job bookkeeping): `modifies *`. That callbacks leave the session skeleton alone is NOT assumed here: the
+//    wrappers get it from `stable` declarations, which govc checks against every address-taken function of the
+//    callback's signature - except for OnJobSolutionStartFn (signature func(): every closure without parameters is a
+//    candidate, the check cannot succeed), where framework.skeletonFrame() is part of the assumption.
 //@ import framework "github.com/NVIDIA/KAI-scheduler/pkg/scheduler/framework"
+
+// C04: hard constraints. predicateOK(f, task, job, node): predicate f accepts task on node (returns nil).
 //@ declare predicateOK(f ref, task ref, job ref, node ref) bool
 //@ func type:PredicateFn
 //@   modifies *
 //@   ensures [assumed] (result == nil) == predicateOK(fn, arg0, arg1, arg2)
 //@   ensures [assumed] framework.pluginFrame()
-//@   note assumed: a registered predicate answers as a function of (task, job, node) at the state of the call and respects the plugin frame
+//@   note assumed: verdict named by predicateOK(fn, task, job, node); plugin frame
+//@ end
+
+//@ declare prePredicateOK(f ref, task ref, job ref) bool
+//@ func type:PrePredicateFn
+//@   modifies *
+//@   ensures [assumed] (result == nil) == prePredicateOK(fn, arg0, arg1)
+//@   ensures [assumed] framework.pluginFrame()
+//@   note assumed: verdict named by prePredicateOK(fn, task, job); plugin frame
+//@ end
+
+// C08: capacity gates. jobCapacityOK(f, job): capacity function f reports the job (with the tasks handed in) as
+// schedulable; the task list is a slice (no scalar), it is not part of the name.
+//@ declare jobCapacityOK(f ref, job ref) bool
+//@ func type:IsJobOverCapacityFn
+//@   modifies *
+//@   ensures [assumed] result != nil && result.IsSchedulable == jobCapacityOK(fn, job)
+//@   ensures [assumed] framework.pluginFrame()
+//@   note assumed: a registered capacity function (proportion) returns a non-nil result whose IsSchedulable is named by jobCapacityOK(fn, job); plugin frame
+//@ end
+
+//@ declare taskCapacityOK(f ref, task ref, job ref, node ref) bool
+//@ func type:IsTaskAllocationOverCapacityFn
+//@   modifies *
+//@   ensures [assumed] result != nil && result.IsSchedulable == taskCapacityOK(fn, task, job, node)
+//@   ensures [assumed] framework.pluginFrame()
+//@   note assumed: a registered per-task capacity function (proportion) returns a non-nil result whose IsSchedulable is named by taskCapacityOK(fn, task, job, node); plugin frame
+//@ end
+
+// C05/C06: "can the reclaimer get more resources at all"
+//@ declare canReclaim(f ref, job ref) bool
+//@ func type:CanReclaimResourcesFn
+//@   modifies *
+//@   ensures [assumed] result == canReclaim(fn, pendingJob)
+//@   ensures [assumed] framework.pluginFrame()
+//@   note assumed: verdict named by canReclaim(fn, job); plugin frame
+//@ end
+
+// queue resource getters (deserved / fair share / allocated)
+//@ declare queueResourceOf(f ref, queue ref) ref
+//@ func type:QueueResource
+//@   modifies *
+//@   ensures [assumed] result == queueResourceOf(fn, arg0)
+//@   ensures [assumed] framework.pluginFrame()
+//@   note assumed: the returned object is named by queueResourceOf(fn, queue); plugin frame
+//@ end
+
+// scoring callbacks: gpuScore / nodeScore name the score, gpuScoreFails / nodeScoreFails the error verdict
+//@ declare gpuScore(f ref, task ref, node ref, gpu string) real
+//@ declare gpuScoreFails(f ref, task ref, node ref, gpu string) bool
+//@ func type:GpuOrderFn
+//@   pure
+//@   ensures [assumed] result0 == gpuScore(fn, arg0, arg1, arg2) && (result1 != nil) == gpuScoreFails(fn, arg0, arg1, arg2)
+//@   note assumed: registered GPU scoring functions are read-only (as Session.FittingGPUs was assumed to be) and named by gpuScore / gpuScoreFails
+//@ end
+
+//@ declare nodeScore(f ref, task ref, node ref) real
+//@ declare nodeScoreFails(f ref, task ref, node ref) bool
+//@ func type:NodeOrderFn
+//@   modifies *
+//@   ensures [assumed] result0 == nodeScore(fn, arg0, arg1) && (result1 != nil) == nodeScoreFails(fn, arg0, arg1)
+//@   ensures [assumed] framework.pluginFrame()
+//@   note assumed: score / error named by nodeScore / nodeScoreFails; plugin frame
+//@ end
+
+// pre-ordering hook: may precompute plugin-private state; the node list handed in is not rewritten
+//@ func type:NodePreOrderFn
+//@   modifies *
+//@   ensures [assumed] framework.pluginFrame()
+//@   ensures [assumed] forall j int :: 0 <= j && j < len(arg1) ==> arg1[j] == old(arg1[j])
+//@   note assumed: plugin frame; the fitting-node slice is read, not permuted
+//@ end
+
+// notification hooks: calls are counted (ghost), so that "every registered function is called exactly once, in
+// registration order" is observable at the wrapper
+//@ ghost preJobAllocationCalls() int
+//@ ghost preJobAllocationAt(k int) ref
+//@ func type:PreJobAllocationFn
+//@   modifies *
+//@   ensures [assumed] preJobAllocationCalls() == old(preJobAllocationCalls()) + 1 && preJobAllocationAt(preJobAllocationCalls()) == fn
+//@   ensures [assumed] forall k int :: k <= old(preJobAllocationCalls()) ==> preJobAllocationAt(k) == old(preJobAllocationAt(k))
+//@   ensures [assumed] framework.pluginFrame()
+//@   ensures [assumed] old(podgroup_info.setsOK(job) && podgroup_info.allTasksOK(job)) ==> podgroup_info.setsOK(job) && podgroup_info.allTasksOK(job)
+//@   note assumed: call counter / call log (ghost bookkeeping only); plugin frame; the registered PreJobAllocationFns (topology) do not touch the job's pod sets / tasks
+//@ end
+
+//@ ghost jobSolutionStartCalls() int
+//@ ghost jobSolutionStartAt(k int) ref
+//@ func type:OnJobSolutionStartFn
+//@   modifies *
+//@   ensures [assumed] jobSolutionStartCalls() == old(jobSolutionStartCalls()) + 1 && jobSolutionStartAt(jobSolutionStartCalls()) == fn
+//@   ensures [assumed] forall k int :: k <= old(jobSolutionStartCalls()) ==> jobSolutionStartAt(k) == old(jobSolutionStartAt(k))
+//@   ensures [assumed] framework.pluginFrame() && framework.skeletonFrame() && framework.solutionStartHooksSame()
+//@   note assumed: call counter / call log (ghost bookkeeping only); plugin frame; a job-solution-start hook leaves the session skeleton alone and registers no further hook (for this func() type the `stable` check cannot succeed)
+//@ end
+
+// C04 "only nodes of the candidate set": a subset function returns subsets of the node set it is given
+//@ func type:SubsetNodesFn
+//@   modifies *
+//@   ensures [assumed] framework.pluginFrame()
+//@   ensures [assumed] result1 == nil ==> forall a int, i int :: 0 <= a && a < len(result0) && 0 <= i && i < len(result0[a]) ==> result0[a][i] != nil && (exists j int :: 0 <= j && j < len(nodeSet) && old(nodeSet[j]) == result0[a][i])
+//@   note assumed (was assumed at the wrapper Session.SubsetNodesFn before): every registered subset function (topology plugin) returns non-nil nodes of the node set it is given; plugin frame
 //@ end
